@@ -33,6 +33,12 @@ def gen_cfg(r, tier, estimator="keyed"):
                    nref=r.choice([1, 1, 2]), symmetric=True, nnoise=1, jump=False, boundary=True, evals=r.randint(6, 12 if tier == "quick" else 18),
                    estimator=r.choice(["real", "keyed"]), p_zero=r.choice([0.0, 0.2]), margin=r.choice([0.5, 0.9]), recalc=None,
                    max_leaves=400, max_points=4000)
+    elif r.random() < 0.08:
+        # long three-dimensional histories in the coarsening versions 1 / 2: several lmax-raising extends by different regions while
+        # earlier raisers are left behind (the same level vector moves from the second to the third diagonal of the scheme)
+        cfg.update(dim=3, a=[0.0, 0.0, 0.0], b=[1.0, 1.0, r.choice([1.0, 2.0])], lmin=1, lmax=2, version=r.choice([1, 2]), nref=1, single_dim=False,
+                   automatic=r.random() < 0.3, margin=r.choice([0.9, 1.0]), p_zero=0.0, p_tie=0.0, mode="mix", recalc=None,
+                   evals=r.randint(6, 9 if tier == "quick" else 12), max_leaves=400, max_points=6000, long_3d=True)
     return cfg
 
 
